@@ -332,7 +332,21 @@ func (g *Gen) oblige(kind string, goal Term, text string) {
 	if goal.S == "true" {
 		return
 	}
-	if g.con != nil && g.con.Opts["safety"] == "off" && isSafetyKind(kind) {
+	if g.con != nil && g.con.Opts["frame"] == "off" && (kind == "modifies" || strings.HasPrefix(kind, "frame[")) {
+		// opt frame=off: the modifies clause of this function is NOT checked (it stays an assumption of its callers,
+		// listed as such): used for protocol-only contracts on engine internals whose frame is not the point
+		note := "the modifies clause of " + g.fnName() + " is not checked (opt frame=off)"
+		dup := false
+		for _, a := range g.assumptions {
+			dup = dup || a == note
+		}
+		if !dup {
+			g.assumptions = append(g.assumptions, note)
+		}
+		g.assumeReach(goal)
+		return
+	}
+	if g.con != nil && g.con.Opts["safety"] == "off" && isSafetyKind(kind) && !g.checkedRequires(kind) {
 		// opt safety=off: the function is under contract for its functional clauses only; index, slice, nil,
 		// division, overflow, explicit-panic obligations and callee preconditions are not checked (listed as
 		// unchecked in the evidence) - they are assumed, i.e. the functional clauses speak about the executions
@@ -353,6 +367,23 @@ func (g *Gen) oblige(kind string, goal Term, text string) {
 	o := &Obl{Name: name, Kind: kind, Goal: goal, Reach: g.reach, Lines: len(g.lines), Pos: g.posStr(), Text: text, Func: g.fnName()}
 	g.obls = append(g.obls, o)
 	g.assumeReach(goal)
+}
+
+// checkedRequires: opt check_requires=Name1,Name2 keeps the precondition obligations of the named callees although
+// the function is otherwise verified with safety=off (kind is "call[<callee key>].requires")
+func (g *Gen) checkedRequires(kind string) bool {
+	lst := g.con.Opts["check_requires"]
+	if lst == "" || !strings.HasPrefix(kind, "call[") || !strings.HasSuffix(kind, ".requires") {
+		return false
+	}
+	callee := strings.TrimSuffix(strings.TrimPrefix(kind, "call["), "].requires")
+	for _, n := range strings.Split(lst, ",") {
+		n = strings.TrimSpace(n)
+		if n != "" && (strings.HasSuffix(callee, "."+n) || strings.HasSuffix(callee, ")."+n) || callee == n) {
+			return true
+		}
+	}
+	return false
 }
 
 func isSafetyKind(kind string) bool {
